@@ -140,6 +140,91 @@ theorem closed_models_hold_no_spec_partial (kw : List String) (ops : List Op) (h
   rw [List.contains_eq_mem, decide_eq_false_iff_not] at this
   exact this hin
 
+/-! ## Spaces created WITH references: `new_space(refs=…)`, `UserSpace.copy` -/
+
+/-- a structural operation (no `new_pandas`, deletion or `update_pandas`) meets no trigger -/
+def Structural : Op → Prop
+  | .newSpace _ _ _ | .newCells _ _ _ | .bind _ _ _ => True
+  | _ => False
+
+theorem structural_clean {op : Op} (h : Structural op) (st : St) : clean st op = true := by
+  cases op <;> first | exact absurd h id | rfl
+
+theorem allClean_of_structural (kw : List String) : ∀ (ops : List Op) (st : St),
+    (∀ op ∈ ops, Structural op) → AllClean kw st ops
+  | [], _, _ => trivial
+  | op :: rest, st, h =>
+    ⟨structural_clean (h op (List.mem_cons_self ..)) st,
+     allClean_of_structural kw rest _ (fun o ho => h o (List.mem_cons_of_mem _ ho))⟩
+
+theorem newSpaceRefsOps_structural (m s : Nat) (name : String) (refs : List (String × Val)) :
+    ∀ op ∈ newSpaceRefsOps m s name refs, Structural op := by
+  intro op hop
+  simp only [newSpaceRefsOps, List.mem_cons, List.mem_map] at hop
+  rcases hop with rfl | ⟨_, _, rfl⟩ <;> trivial
+
+theorem copySpaceOps_structural (st : St) (m src s : Nat) (name : String) :
+    ∀ op ∈ copySpaceOps st m src s name, Structural op := by
+  intro op hop
+  simp only [copySpaceOps, List.mem_append, List.mem_map] at hop
+  rcases hop with h | ⟨_, _, rfl⟩
+  · exact newSpaceRefsOps_structural _ _ _ _ op h
+  · trivial
+
+/-- **A composite is a history.**  What `new_space(refs=…)` / `copy` leave behind is the state after a prefix of
+their expansion: all of it, or - the creation of the space refused - its first operation alone. -/
+theorem composite_is_a_history (kw : List String) (st : St) (ops : List Op) :
+    (runGuarded kw st ops).1 = run kw st ops ∨ (runGuarded kw st ops).1 = run kw st (ops.take 1) := by
+  cases ops with
+  | nil => left; rfl
+  | cons op rest =>
+    simp only [runGuarded]
+    cases hres : stepR kw st op with
+    | mk st1 r =>
+      have h1 : step kw st op = st1 := by simp [step, hres]
+      cases r with
+      | ok u => left; simp [run, List.foldl_cons, h1]
+      | error e => right; simp [run, h1]
+
+theorem rinv_runGuarded (kw : List String) {st : St} (h : RInv st) {ops : List Op}
+    (hs : ∀ op ∈ ops, Structural op) : RInv (runGuarded kw st ops).1 := by
+  rcases composite_is_a_history kw st ops with e | e <;> rw [e]
+  · exact rinv_run kw ops st h (allClean_of_structural kw ops st hs)
+  · exact rinv_run kw (ops.take 1) st h
+      (allClean_of_structural kw _ st (fun o ho => hs o (List.mem_of_mem_take ho)))
+
+/-- **A space created with references registers each of them** (`new_space(name, refs=…)`).  From any state in
+which the statement's invariant holds - in particular after any clean history - the statement holds after the
+creation, whatever the mapping binds: several names to ONE object (each is listed under the object in
+`_valid_to_refs`), objects that have an IOSpec, Interfaces, objects bound elsewhere in the model. -/
+theorem created_with_refs_keeps_statement (kw : List String) {st : St} (h : RInv st) (m s : Nat) (name : String)
+    (refs : List (String × Val)) :
+    IOInv (runGuarded kw st (newSpaceRefsOps m s name refs)).1 :=
+  ioInv_of_rinv (rinv_runGuarded kw h (newSpaceRefsOps_structural m s name refs))
+
+/-- **A copy of a space registers the references it is created with** (`source.copy(model, name)`). -/
+theorem copied_space_keeps_statement (kw : List String) {st : St} (h : RInv st) (m src s : Nat) (name : String) :
+    IOInv (copySpace kw st m src s name).1 := by
+  unfold copySpace
+  split
+  · exact ioInv_of_rinv h
+  · exact ioInv_of_rinv (rinv_runGuarded kw h (copySpaceOps_structural st m src s name))
+
+/-- the twins of a created space: `S1.x` has an IOSpec; `S2` is created with `x` and `y` both bound to that
+object; then `S1.x` and `S2.y` are deleted - the spec lives, `S2.x` still holds the value; it dies with `S2.x` -/
+def twins : List Op :=
+  [.newModel 0, .newSpace 0 1 "S1", .newPandas ⟨0, 1⟩ "x" "a.csv" true none (.df 0)] ++
+  newSpaceRefsOps 0 2 "S2" [("x", .df 0), ("y", .df 0)] ++ [.del ⟨0, 1⟩ "x", .del ⟨0, 2⟩ "y"]
+
+example : AllClean [] {} twins := by decide +kernel
+example : ((run [] {} (twins.take 6)).v2r.map (fun e => (e.1, e.2.map (fun r => (r.owner.space, r.name))))) =
+    [((0, .df 0), [(1, "x"), (2, "x"), (2, "y")])] := by decide +kernel
+example : ((run [] {} twins).specs.map (·.val), (run [] {} twins).refs.map (fun r => (r.owner.space, r.name))) =
+    ([.df 0], [(2, "x")]) := by decide +kernel
+example : (run [] {} (twins ++ [.del ⟨0, 2⟩ "x"])).specs = [] := by decide +kernel
+example : ((copySpace [] (run [] {} (twins.take 6)) 0 2 3 "S3").1.v2r.map (fun e => e.2.map (fun r => (r.owner.space, r.name)))) =
+    [[(1, "x"), (2, "x"), (2, "y"), (3, "x"), (3, "y")]] := by decide +kernel
+
 /-! ## The registry of file objects: relative and absolute paths (`Kernels/IOKeys.lean`) -/
 
 /-- **io_keys_unique** (every history of creations, path changes – relative→relative,
